@@ -140,6 +140,32 @@ def search(ctx, N):
             if ctx.violation('symmetric-trim', 'dea3(e0, e1, e2, symmetric=True) on arrays of shape %r is not (result[:-1], abserr[1:]) of the untrimmed call: element k of the result is no longer the limit of sequence k' % (shape,),
                              dict(desc, result_symmetric=np.asarray(r1).tolist(), result=np.asarray(r0).tolist())):
                 found += 1
+    # mixed scalar / array arguments and rows against 2-d arrays are broadcast: the result has the broadcast shape and every element is the scalar
+    # call on the corresponding triple (one position is an exact tie e0 = e1 = e2, i.e. the converged branch, at an index above 0)
+    for k in range(12):
+        m = int(rng.integers(3, 7))
+        s = float(rng.uniform(0.5, 2.0))
+        a0, a1, a2 = [rng.uniform(-3, 3, size=m) for _ in range(3)]
+        for arr in (a0, a1, a2):
+            arr[1] = s
+        b0, b1 = rng.uniform(-3, 3, size=(2, m)), rng.uniform(-3, 3, size=(2, m))
+        row = rng.uniform(-3, 3, size=m)
+        b0[1, 2] = b1[1, 2] = row[2]
+        args = [(a0, a1, s), (s, a1, a2), (a0, s, a2), (a0, s, s), (b0, b1, row), (row, b0, b1), (b0, row, b1)][k % 7]
+        try:
+            with warnings.catch_warnings():
+                warnings.simplefilter('ignore')
+                r, ab = dea3(*args)
+                full = np.broadcast_arrays(*[np.asarray(v, dtype=float) for v in args])
+                rs = np.array([float(dea3(float(x), float(y), float(z))[0][0]) for x, y, z in zip(*[np.ravel(v) for v in full])]).reshape(full[0].shape)
+        except Exception as ex:   # noqa
+            if ctx.violation('raises:broadcast', 'dea3 raises %r for mixed scalar / array arguments of shapes %r' % (ex, [np.shape(v) for v in args]), {'args': [np.asarray(v).tolist() for v in args]}):
+                found += 1
+            continue
+        ctx.count(1, ('broadcast', k % 7))
+        if np.shape(r) != full[0].shape or not np.array_equal(np.asarray(r), rs):
+            if ctx.violation('elementwise:broadcast', 'dea3 with arguments of shapes %r: the result is not the elementwise result on the broadcast arguments' % ([np.shape(v) for v in args],), {'args': [np.asarray(v).tolist() for v in args]}):
+                found += 1
     # moderate finite inputs: finite, non-negative, no exception, inputs unmodified
     for k in range(N):
         e = [np.array(gen_triple(rng, int(rng.integers(0, 4)))[i:i + 1]) for i in range(3)]
